@@ -2,16 +2,23 @@
   C05 — obligations about the start-block wiring of `app.Run`, RE-EXTRACTED from app/app.go and chains/btc/chain.go
   on every run (Generated/C05.lean). They state that each chain-type branch composes exactly the calls that the
   model's `startOf` (Model/C05.lean) and the harness (`wireChain`) compose:
-    evm, substrate:  GetStartBlock → nil ⇒ boot head → CalculateStartingBlock → New…Chain(…, startBlock)
-    btc:             GetStartBlock → NewBtcChain(…, startBlock); the chain stores it and PollEvents passes it on
-  A branch that stops reading the store, stops aligning, or does not hand the result to the chain object fails here.
+    evm, substrate:  GetStartBlock → nil ⇒ boot head → CalculateStartingBlock(·, BlockInterval) → New…Chain(…, start)
+    btc:             GetStartBlock → NewBtcChain(…, start); the chain stores it and PollEvents passes it on
+  The facts are located by shape (exported API names, not names of locals) and are `Option`s: `none` = the branch was
+  not located (e.g. moved into a helper) — the obligation is vacuous, bin/check prints `T-TIE-UNAVAILABLE` and the
+  behavioural ops (`life`/`lifereal` through the real chain objects, C19 `appboot` through the real app.Run) carry it.
+  A branch that IS located and stops reading the store, stops aligning, or does not hand the result on fails here.
 -/
 import SygmaModel.Generated.C05
 namespace Sygma.C05
 
-theorem gen_wiring_evm : Generated.C05.evm = ⟨true, true, true, true, true⟩ := by decide
-theorem gen_wiring_substrate : Generated.C05.substrate = ⟨true, true, true, true, true⟩ := by decide
-theorem gen_wiring_btc : Generated.C05.btc = ⟨true, false, false, true, true⟩ := by decide
-theorem gen_btc_chain : Generated.C05.btcChainStoresStart = true ∧ Generated.C05.btcPollPassesStart = true := by decide
+theorem gen_wiring_evm : ∀ w, Generated.C05.evm = some w → w = ⟨true, true, true, true, true⟩ := by
+  intro w hw; unfold Generated.C05.evm at hw; cases hw; all_goals decide
+theorem gen_wiring_substrate : ∀ w, Generated.C05.substrate = some w → w = ⟨true, true, true, true, true⟩ := by
+  intro w hw; unfold Generated.C05.substrate at hw; cases hw; all_goals decide
+theorem gen_wiring_btc : ∀ w, Generated.C05.btc = some w → w = ⟨true, false, false, true, true⟩ := by
+  intro w hw; unfold Generated.C05.btc at hw; cases hw; all_goals decide
+theorem gen_btc_chain : ∀ p, Generated.C05.btcChain = some p → p = (true, true) := by
+  intro p hp; unfold Generated.C05.btcChain at hp; cases hp; all_goals decide
 
 end Sygma.C05
